@@ -114,7 +114,17 @@ func (t Time64) fixed() uint64 {
 }
 
 func ClockOffset(t0, t1, t2, t3 time.Time) time.Duration {
-	return (t1.Sub(t0) + t2.Sub(t3)) / 2
+	// The sum of the two terms is twice the offset and does not fit into a
+	// Duration for offsets beyond about 146 years, although the offset itself
+	// does: then the terms are halved before they are added.
+	x := t1.Sub(t0)
+	y := t2.Sub(t3)
+	d := x + y
+	if (x < 0) == (y < 0) && (d < 0) != (x < 0) {
+		// x + y overflowed
+		return x/2 + y/2 + (x%2+y%2)/2
+	}
+	return d / 2
 }
 
 func RoundTripDelay(t0, t1, t2, t3 time.Time) time.Duration {
